@@ -318,6 +318,24 @@ func degenerateModel(rng *rand.Rand) *openfgav1.AuthorizationModel {
 		case 5:
 			cd.Metadata = nil
 		}
+		if rng.Intn(4) == 0 {
+			// containers of containers, with and without an element type one level down (the DSL has one level only)
+			for _, pr := range cd.Parameters {
+				if pr == nil {
+					continue
+				}
+				inner := &openfgav1.ConditionParamTypeRef{TypeName: []openfgav1.ConditionParamTypeRef_TypeName{openfgav1.ConditionParamTypeRef_TYPE_NAME_LIST, openfgav1.ConditionParamTypeRef_TYPE_NAME_MAP}[rng.Intn(2)]}
+				switch rng.Intn(3) {
+				case 0:
+					inner.GenericTypes = []*openfgav1.ConditionParamTypeRef{{TypeName: openfgav1.ConditionParamTypeRef_TYPE_NAME_STRING}}
+				case 1:
+					inner.GenericTypes = []*openfgav1.ConditionParamTypeRef{{TypeName: openfgav1.ConditionParamTypeRef_TYPE_NAME_LIST}}
+				}
+				pr.TypeName = []openfgav1.ConditionParamTypeRef_TypeName{openfgav1.ConditionParamTypeRef_TYPE_NAME_LIST, openfgav1.ConditionParamTypeRef_TYPE_NAME_MAP}[rng.Intn(2)]
+				pr.GenericTypes = []*openfgav1.ConditionParamTypeRef{inner}
+				break
+			}
+		}
 	}
 	return m
 }
